@@ -40,6 +40,8 @@ def affected(files, allprops):
                 break
         if not hit:
             return list(allprops)
+        if not d.startswith("tools"):
+            props.add("C06")   # every function of the generation path carries C06 obligations
         if not d.startswith("tools") and not d.startswith("internal/cmd"):
             props.update(INSTANCE)   # anything on the generation path can change the generated mocks
     return [p for p in allprops if p in props]
